@@ -77,6 +77,81 @@ mod helper {
         matches!(t, syn::Type::Reference(_))
     }
 
+    /// value of one arm body of a generated accessor: string literal (hex), prefix identifier,
+    /// canonical scale literal; anything else is printed as tokens
+    fn arm_value(e: &syn::Expr) -> String {
+        match e {
+            // "text".to_owned()
+            syn::Expr::MethodCall(m) if m.method == "to_owned" && m.args.is_empty() => match &*m.receiver {
+                syn::Expr::Lit(syn::ExprLit { lit: syn::Lit::Str(t), .. }) => format!("s:{}", hex(&t.value())),
+                other => format!("?{}", quote::quote!(#other).to_string().replace(' ', "")),
+            },
+            // Some(SIPrefix::X)
+            syn::Expr::Call(c) => {
+                let f = &c.func;
+                let fname = quote::quote!(#f).to_string().replace(' ', "");
+                match (fname.as_str(), c.args.first()) {
+                    ("Some", Some(syn::Expr::Path(p))) if c.args.len() == 1 => {
+                        let segs: Vec<String> = p.path.segments.iter().map(|s| s.ident.to_string()).collect();
+                        if segs.len() == 2 && segs[0] == "SIPrefix" {
+                            format!("p:{}", segs[1])
+                        } else {
+                            format!("?{}", segs.join("::"))
+                        }
+                    }
+                    _ => format!("?{}", quote::quote!(#c).to_string().replace(' ', "")),
+                }
+            }
+            syn::Expr::Path(p) if p.path.is_ident("None") => "p:-".to_string(),
+            // Amnt!(<literal>)
+            syn::Expr::Macro(m) if m.mac.path.is_ident("Amnt") => match syn::parse2::<syn::Lit>(m.mac.tokens.clone()) {
+                Ok(l) => format!("l:{}", canon_lit(&l)),
+                Err(_) => format!("?Amnt!({})", m.mac.tokens.to_string().replace(' ', "")),
+            },
+            other => format!("?{}", quote::quote!(#other).to_string().replace(' ', "")),
+        }
+    }
+
+    /// `match self { Self::V => value, .. }` -> V -> value; a body without `match` (single-unit
+    /// types) is recorded under `*`, a wildcard arm under `_`
+    fn arms_of(b: &syn::Block) -> std::collections::BTreeMap<String, String> {
+        let mut out = std::collections::BTreeMap::new();
+        let last = match b.stmts.last() {
+            Some(syn::Stmt::Expr(e, None)) if b.stmts.len() == 1 => e,
+            _ => {
+                out.insert("!".to_string(), "body-not-a-single-expression".to_string());
+                return out;
+            }
+        };
+        match last {
+            syn::Expr::Match(m) => {
+                let scrut = &m.expr;
+                if quote::quote!(#scrut).to_string() != "self" {
+                    out.insert("!".to_string(), "match-not-on-self".to_string());
+                }
+                for a in &m.arms {
+                    if a.guard.is_some() {
+                        out.insert("!".to_string(), "guarded-arm".to_string());
+                    }
+                    let key = match &a.pat {
+                        syn::Pat::Path(p) if p.path.segments.len() == 2 && p.path.segments[0].ident == "Self" => {
+                            p.path.segments[1].ident.to_string()
+                        }
+                        syn::Pat::Wild(_) => "_".to_string(),
+                        other => format!("?{}", quote::quote!(#other).to_string().replace(' ', "")),
+                    };
+                    if out.insert(key, arm_value(&a.body)).is_some() {
+                        out.insert("!".to_string(), "duplicate-arm".to_string());
+                    }
+                }
+            }
+            e => {
+                out.insert("*".to_string(), arm_value(e));
+            }
+        }
+        out
+    }
+
     /// the operator impls in the generated code: `op lhs rhs out forms`
     fn impls_of(code: TokenStream) -> String {
         let file: syn::File = match syn::parse2(code) {
@@ -86,6 +161,9 @@ mod helper {
         let mut rows: std::collections::BTreeMap<String, Vec<String>> = std::collections::BTreeMap::new();
         let mut consts: Vec<String> = Vec::new();
         let mut variants: Vec<String> = Vec::new();
+        // what the GENERATED accessor functions return per variant: fn -> (variant -> value)
+        let mut arms: std::collections::BTreeMap<String, std::collections::BTreeMap<String, String>> =
+            std::collections::BTreeMap::new();
         for it in &file.items {
             match it {
                 syn::Item::Impl(im) => {
@@ -94,6 +172,16 @@ mod helper {
                         None => continue,
                     };
                     let seg = path.segments.last().unwrap();
+                    if seg.ident == "Unit" || seg.ident == "LinearScaledUnit" {
+                        for ii in &im.items {
+                            if let syn::ImplItem::Fn(f) = ii {
+                                let n = f.sig.ident.to_string();
+                                if n == "name" || n == "symbol" || n == "si_prefix" || n == "scale" {
+                                    arms.insert(n, arms_of(&f.block));
+                                }
+                            }
+                        }
+                    }
                     let op = match seg.ident.to_string().as_str() {
                         "Add" => "add",
                         "Sub" => "sub",
@@ -191,7 +279,22 @@ mod helper {
             forms.sort();
             out.push(format!("{} [{}]", k, forms.join(",")));
         }
-        format!("{} # consts {} # variants {}", out.join("; "), consts.join(","), variants.join(","))
+        let look = |f: &str, v: &str| -> String {
+            match arms.get(f) {
+                None => "-".to_string(),
+                Some(m) => {
+                    if let Some(e) = m.get("!") {
+                        return format!("!{}", e);
+                    }
+                    m.get(v).or_else(|| m.get("*")).or_else(|| m.get("_")).cloned().unwrap_or_else(|| "missing".to_string())
+                }
+            }
+        };
+        let per_variant: Vec<String> = variants
+            .iter()
+            .map(|v| format!("{},{},{},{},{}", v, look("name", v), look("symbol", v), look("si_prefix", v), look("scale", v)))
+            .collect();
+        format!("{} # consts {} # variants {} # arms {}", out.join("; "), consts.join(","), variants.join(","), per_variant.join(" | "))
     }
 
     /// the sequence of `quantity()` in qty-macros/src/lib.rs
